@@ -1113,8 +1113,10 @@ func (g *gen) script(front bool, canKeep bool) string {
 			o = "get/" + hk(g.key())
 		case x == 11:
 			o = "get/" + hk([]string{cs.KeyNetId, cs.KeyServerId}[r.Intn(2)])
-		case x < 15:
+		case x < 13:
 			o = "push"
+		case x < 15:
+			o = "pushnw"
 		case x < 17:
 			o = "query"
 		case x == 17:
@@ -1217,6 +1219,38 @@ func (g *gen) caseOps(nops int) []string {
 			if len(g.handles) > 0 && r.Intn(3) > 0 {
 				ops = append(ops, fmt.Sprintf("on h=%s s=%s", g.handles[r.Intn(len(g.handles))], []string{"query;json", "set/" + hk("k") + "/" + valField("t") + ";push;query", "query;get/" + hk("chatid")}[r.Intn(3)]))
 			}
+			continue
+		}
+		if r.Intn(14) == 0 {
+			// a handler suspends (asynchronous step), requests of OTHER connections are handled by the same
+			// service type meanwhile, then it resumes, works on "its" session and answers
+			f, n := g.pickConn(true)
+			svc := []string{"chat", "chat", "gate"}[r.Intn(3)]
+			g.nh++
+			tag := "t" + strconv.Itoa(g.nh)
+			g.h.Count("op.park." + svc)
+			ops = append(ops, fmt.Sprintf("park f=%s n=%d svc=%s t=%s s=%s", f, n, svc, tag, strings.ReplaceAll(g.script(svc == "gate", false), "keep/", "get/")))
+			for j := 0; j < 1+r.Intn(3); j++ {
+				f2, n2 := g.pickConn(true)
+				if svc == "gate" {
+					f2 = f
+					if l := g.open[f]; len(l) > 0 {
+						n2 = l[r.Intn(len(l))]
+					}
+				}
+				ops = append(ops, fmt.Sprintf("req f=%s n=%d svc=%s ntf=%d s=%s", f2, n2, svc, hx.B2i(r.Intn(5) == 0), g.script(svc == "gate", false)))
+			}
+			if r.Intn(8) == 0 {
+				ops = append(ops, fmt.Sprintf("close f=%s n=%d", f, n))
+				l := g.open[f]
+				for i, o := range l {
+					if o == n {
+						g.open[f] = append(append([]int{}, l[:i]...), l[i+1:]...)
+					}
+				}
+			}
+			tail := []string{"push", "pushnw", "push;query;json", "pushnw;id"}[r.Intn(4)]
+			ops = append(ops, fmt.Sprintf("resume t=%s s=%s;%s", tag, g.setOp(svc == "gate"), tail), "snap")
 			continue
 		}
 		switch x := r.Intn(100); {
